@@ -113,7 +113,7 @@ def _expr(case, add):
     ii = g.info(spec)
     cls = g._cls(spec) + (":" + spec.get("idx", {}).get("t", "") if spec["k"] == "Partial" else "")
     b = g.build(spec, 0, 1, seed)
-    b_other = g.build(spec, 0, 2, seed)
+    b_other = g.build(spec, 3, 2, seed)  # the skeleton for deserialisation: other constructor arguments (salt) AND another parameter state
     if tuple(b.shape) != ii.shape:
         return 0, 0, None
     consts = bt.boundary_constants(b)
